@@ -2741,6 +2741,9 @@ impl Connection {
                             .push_back(EndpointEventInner::ResetToken(self.path.remote, token));
                     }
                     self.handle_peer_params(params)?;
+                    // The idle timer was restarted for this packet before its contents were
+                    // looked at, i.e. with our own timeout rather than the negotiated one
+                    self.reset_idle_timeout(now, SpaceId::Handshake);
                     if let Some(was_limited) = at_0rtt_stream_limit {
                         // No MAX_STREAMS frame will announce the negotiated limits
                         self.streams.stream_limits_replaced(was_limited);
@@ -2796,6 +2799,8 @@ impl Connection {
                         )
                     })?;
                     self.handle_peer_params(params)?;
+                    // (see the client side: restart the idle timer with the negotiated timeout)
+                    self.reset_idle_timeout(now, SpaceId::Initial);
                     self.issue_first_cids(now);
                     self.init_0rtt();
                 }
